@@ -82,7 +82,12 @@ impl ArrivalCurvePrefix {
                 .map(|(i, _)| i)
                 .next();
             let i = step.unwrap_or(self.steps.len());
-            self.steps[i - 1].1
+            if i == 0 {
+                // no step at or below delta (e.g., a prefix without any steps)
+                0
+            } else {
+                self.steps[i - 1].1
+            }
         }
     }
 }
